@@ -36,6 +36,8 @@ pub struct Recording {
     pub pcm: Vec<i16>,
     pub label: String,
     pub odd_byte: bool,
+    /// header text of the last transmission (what was actually sent)
+    pub last_header: Vec<u8>,
 }
 
 /// 0..4 transmissions, lossy or not, close-cut or padded
@@ -60,9 +62,11 @@ fn gen_recording_with(rng: &mut Rng, rate: u32, ntx: usize, last: Option<(u8, u8
     }
     let mut a = Audio::new(line);
     a.silence(0.2 + rng.unit() * 0.5, rng);
+    let mut last_header: Vec<u8> = vec![];
     for t in 0..ntx {
         let kind = rng.below(5);
         let h = gen_header_any(rng).text().into_bytes();
+        last_header = h.clone();
         let (hm, tm) = match (kind, last) {
             (_, Some((hm, tm, _))) if t + 1 == ntx => (hm, tm),
             (0, _) => (7u8, 7u8),
@@ -118,7 +122,7 @@ fn gen_recording_with(rng: &mut Rng, rate: u32, ntx: usize, last: Option<(u8, u8
     if odd_byte {
         label.push_str(".oddbyte");
     }
-    Recording { rate, pcm, label, odd_byte }
+    Recording { rate, pcm, label, odd_byte, last_header }
 }
 
 fn write_raw(path: &Path, rec: &Recording) {
@@ -318,7 +322,9 @@ pub fn run_app(ctx: &Ctx) {
         let ntx = if i < 5 { i } else { rng.range(0, 4) as usize };
         // cases 8..15 are directed: the last message only completes at end of input (header without trailer, or
         // a single trailer burst, cut on the last sample), alternately without and with a child attached
-        let directed: Option<(u8, u8, bool)> = if (8..16).contains(&i) { Some([(7u8, 0u8, true), (7, 4, true), (6, 0, true), (3, 4, true)][(i - 8) / 2]) } else { None };
+        // (cases 16, 17: no header at all, a single trailer burst with nothing in the history, cut right after it — the
+        //  EndOfMessage then exists only inside the link layer when the input ends, and flush() must bring it out)
+        let directed: Option<(u8, u8, bool)> = if (8..18).contains(&i) { Some([(7u8, 0u8, true), (7, 4, true), (6, 0, true), (3, 4, true), (0, 4, true)][(i - 8) / 2]) } else { None };
         let ntx = if directed.is_some() { ntx.max(1) } else { ntx };
         let rec = gen_recording_with(&mut rng, rate, ntx, directed);
         let raw = dir.join(format!("rec{}.raw", i));
@@ -445,10 +451,21 @@ pub fn run_app(ctx: &Ctx) {
             res.status.map(|c| c.to_string()).unwrap_or_else(|| if res.timed_out { "TIMEOUT".to_owned() } else { "signal".to_owned() })
         );
         out.op(&op, &imp, true);
+        // directed end-of-input cases are judged against what was TRANSMITTED, not against a reference computed by the
+        // library under test: the last line printed must be the last transmission's header (its lone trailer burst,
+        // heard inside the header's history window, is voted with the header and suppressed) or, for the trailer-only
+        // recording, the EndOfMessage
+        if let (Some((hm, _tm, _)), false) = (directed, quiet) {
+            let expect = if hm == 0 { "E".to_owned() } else { format!("S{}", hex(&rec.last_header)) };
+            out.spec(&format!("spec.c14.last [{}] {} => {}", label, expect, stdout_toks(&res.stdout)));
+        }
         // the whole-program model (Model/Program.lean: bytes -> samples -> whole-receiver model under the iterator
         // bindings -> flush -> Waiting/Alerting) on the very bytes samedec read: same printed lines, same child ranges
-        if rec.pcm.len() <= 1_300_000 && n_full < (if ctx.tier_thorough { 80 } else { 10 }) {
-            n_full += 1;
+        // (always for the directed end-of-input cases; a quota of the others)
+        if rec.pcm.len() <= 1_300_000 && (directed.is_some() || n_full < (if ctx.tier_thorough { 80 } else { 4 })) {
+            if directed.is_none() {
+                n_full += 1;
+            }
             let op = format!("app.full quiet={} child={} {} {}", quiet as u8, with_child as u8, crate::suites::fullrx::cfg_tokens(&samedec_builder(rate)), raw.display());
             out.op(&op, &imp, true);
             out.count("whole_program_model_runs");
@@ -582,7 +599,7 @@ pub fn run_fault(ctx: &Ctx) {
             }
             a.silence(1.5, &mut rng);
         }
-        let rec = Recording { rate, pcm: a.samples.iter().map(|x| x.round() as i16).collect(), label: format!("fault{}{}", r, if close_cut { ".closecut" } else { "" }), odd_byte: false };
+        let rec = Recording { rate, pcm: a.samples.iter().map(|x| x.round() as i16).collect(), label: format!("fault{}{}", r, if close_cut { ".closecut" } else { "" }), odd_byte: false , last_header: vec![] };
         let raw = dir.join(format!("fault{}.raw", r));
         write_raw(&raw, &rec);
         let base: Vec<String> = vec!["--rate".into(), rate.to_string(), "--file".into(), raw.to_string_lossy().into_owned()];
